@@ -29,17 +29,39 @@ on a scratch worktree). They are kept under `/verif/seeded/<id>/`
 (patch.diff, demo_test.go, the agent's README.md, meta.json). None is ever
 committed to /repo.
 
-Result: 66 changes (2 waves x 11 properties x 3), 66 detected by a quick
-check - 65 by the check of the property they were written against, one
-(C19-w2-m3, a data race between concurrent traced executions of one Prog) by
-C12, whose statement it actually breaks. 16 of the 66 were MISSED when first
-tried (3 in wave 1, 13 in wave 2) and for 3 more (C19 wave 1) the workload was
-widened on reading the agent's description, before the first trial; each miss
-was answered by widening the workload or adding a fault kind, never by
-special-casing the change, and the "detected by" column says which
-strengthening it took. After each strengthening the check was re-run on the
-unchanged tree (and, for the timing-related one, under load) to make sure it
-stays silent there. The strengthenings, in one list:
+Result: 99 changes (3 waves x 11 properties x 3; the second and third wave
+were also given one-line descriptions of the earlier changes so as not to
+repeat them, and the third was asked for the hardest-to-notice realistic
+change). 97 are reported by a quick check; 2 are recorded as not pursued
+(C08-w3-m3 and C09-w3-m3 need sources / strings of 16 MiB and more - beyond
+every size class the properties name, at seconds and hundreds of MB per run).
+90 of the 97 are reported by the check of the property they were written
+against; 7 break another property's statement more directly and are reported
+there (concurrent callers -> C12: C19-w2-m3, C06-w3-m2, C09-w3-m2, C19-w3-m2;
+a failing dump write -> C18: C09-w3-m1; these were written "against" a property
+whose workload has no such dimension).
+Misses when first tried: 3 in wave 1, 13 in wave 2, 18 in wave 3 (hard mode);
+for 3 more (C19 wave 1) the workload was widened on reading the agent's
+description, before the first trial. Each miss was answered by widening the
+workload, adding a fault kind or an invariant - never by special-casing the
+change - and the "detected by" column says which strengthening it took. After
+each strengthening the check was re-run on the unchanged tree to make sure it
+stays silent there (and two of my own transient mistakes were caught that way,
+section 12).
+
+Counter-test (no alarm on code where the properties hold): two further
+sub-agents were asked for behaviour-preserving maintenance changes (12 in
+all, `/verif/benign/`): ParseFile restructured (result hand-off over buffered
+channels; parser moved into the calling goroutine), token channel 10 -> 64,
+ASCII fast path and split refill in the lexer, RWMutex and batched appends in
+the line table, table-driven parser and disassembler, VM closures turned into
+methods, 16 KiB Dump buffer with piecewise string writes, ReadByte-based
+varint reads, tag index cached per reflect.Type, CLI flag parsing folded.
+All 11 checks stay silent on all 12 (one transient alarm of C12 on three of
+them was the harness's own bug of that hour, the variable-width fresh
+identifier of section 12; re-run: silent).
+
+The strengthenings, in one list:
 
 * C06: jump-limit programs with terms of mixed code size and both truth values
   of the left operand; Unmarshal targets whose fields match the generators
@@ -61,6 +83,21 @@ stays silent there. The strengthenings, in one list:
   per-process caches show as a cross-process difference.
 * C18: `--bdump` over an existing larger file; file stems ending in b, c, l or
   a dot.
+* Wave 3 added: fault kinds close_error (Close returns an error), stale
+  Stat size, runs of 20-400 consecutive zero-byte reads, readers that end
+  with io.ErrUnexpectedEOF or an I/O error instead of io.EOF; the invariant
+  "no write to the caller's writers begins after the call has returned"
+  (late-write) and, in the race build, an unsynchronised log buffer that the
+  caller reads at the moment of return; loading into a used Prog and a second
+  Load into the same Prog (with a 20 s hang bound) in C13; another program
+  parsed and run between Parse and Execute/Dump in C08 and C16; two same-named
+  struct types of different sizes in C06; strings and block names that spell
+  earlier literals and identifiers; slices of 513-640 blocks; a shared locked
+  output writer for concurrent executions; fresh identifiers per concurrent
+  call; more concurrent LoadProg calls on different dumps; file names of 96
+  bytes and more and constants larger than the write buffer in C18's fault
+  runs; four new corpus files with jumps of 0x8001..0x9000 bytes over code
+  whose execution would be visible.
 * C19: programs with 236-330 locals; strings up to 4097 bytes; Execute given
   writers of its own; a failing output writer under all 8 settings; runs of
   more than 65 536 instructions.
